@@ -175,14 +175,19 @@ impl Slave {
     }
 
     fn resp(&self, to: u8, dsap: Option<u8>, ssap: Option<u8>, status: u8, pdu: Vec<u8>) -> Vec<u8> {
-        wire::encode(&Frame::Data {
+        let f = Frame::Data {
             da: to,
             sa: self.cfg.addr,
             dsap,
             ssap,
             fc: wire::fc_response(0, status),
             pdu,
-        })
+        };
+        if self.cfg.sd2_always {
+            wire::encode_sd2_forced(&f)
+        } else {
+            wire::encode(&f)
+        }
     }
 
     fn tsdr(&mut self) -> u64 {
